@@ -46,10 +46,14 @@ HOSTILE_KEYS = [
 ]
 
 
-def corpus_files():
+def corpus_files(small=False):
     out = []
+    pats = [os.path.join(VERIF, 'corpus', '*.diff')]
 
-    for p in sorted(glob.glob(os.path.join(VERIF, 'corpus', '*.diff'))):
+    if small:
+        pats.append(os.path.join(VERIF, 'corpus', 'small', '*.diffx'))
+
+    for p in sorted(f for pat in pats for f in glob.glob(pat)):
         with open(p, 'rb') as fp:
             out.append(fp.read())
 
@@ -300,6 +304,44 @@ def atheris_chunks(tier, seed):
     return [('shard', i, seed) for i in range(16)]
 
 
+def write_dictionary(path):
+    """libFuzzer dictionary: header tokens plus the hostile option values
+    and keys of the structured corruptions (a coverage-guided fuzzer cannot
+    guess codec names)."""
+    def esc(b):
+        return '"' + ''.join('\\x%02x' % c for c in b) + '"'
+
+    toks = set(TOKENS)
+
+    with open(os.path.join(VERIF, 'dxv', 'c08.dict')) as fp:
+        base = fp.read()
+
+    for v in HOSTILE_VALUES:
+        b = v.encode('latin-1')
+
+        if b:
+            toks.add(b)
+
+            for k in ('encoding', 'length', 'indent', 'line_endings',
+                      'format', 'version'):
+                kv = k.encode() + b'=' + b
+                toks.add(kv)
+                toks.add(b' ' + kv)          # first option of a header
+                toks.add(b', ' + kv)         # appended option
+                toks.add(kv + b', ')         # prepended option
+
+    for k in HOSTILE_KEYS:
+        toks.add(k.encode() + b'=')
+        toks.add(b', ' + k.encode() + b'=abc')
+
+    with open(path, 'w') as fp:
+        fp.write(base)
+
+        for t in sorted(toks):
+            if 0 < len(t) <= 64:
+                fp.write(esc(t) + '\n')
+
+
 def run_atheris(chunk, st):
     _, shard, seed = chunk
     deps = os.path.join(VERIF, '.deps')
@@ -315,18 +357,19 @@ def run_atheris(chunk, st):
         os.mkdir(corpus)
 
         if shard != 0:        # shard 0 starts from an empty corpus
-            for i, blob in enumerate(corpus_files()):
+            for i, blob in enumerate(corpus_files(small=True)):
                 with open(os.path.join(corpus, 'seed%d' % i), 'wb') as fp:
                     fp.write(blob)
 
+        dict_path = os.path.join(tmp, 'tokens.dict')
+        write_dictionary(dict_path)
         env = dict(os.environ)
         env['PYTHONPATH'] = VERIF + os.pathsep + deps
         env['DXV_FUZZ_OUT'] = tmp
         runs = int(1200000 * float(os.environ.get('VERIF_BUDGET_SCALE', '1')))
         cmd = [sys.executable, '-m', 'dxv.fuzz_c08', corpus,
                '-runs=%d' % runs, '-seed=%d' % (seed * 100 + shard + 1),
-               '-max_len=2048', '-dict=' + os.path.join(VERIF, 'dxv',
-                                                        'c08.dict'),
+               '-max_len=2048', '-dict=' + dict_path,
                '-artifact_prefix=' + tmp + '/', '-print_final_stats=1']
         p = subprocess.run(cmd, env=env, stdout=subprocess.PIPE,
                            stderr=subprocess.STDOUT, timeout=3000)
